@@ -340,7 +340,7 @@ func sortedKeys(m map[string]bool) []string {
 // ---- conditionally declared identifiers (C01) ----
 
 var declRxs = []*regexp.Regexp{
-	regexp.MustCompile(`(?m)^\s*(?:var )?([A-Za-z_]\w*)(?:, ([A-Za-z_]\w*))?(?:, ([A-Za-z_]\w*))? :?= `),
+	regexp.MustCompile(`(?m)^\s*(?:var )?([A-Za-z_]\w*)(?:,\s*([A-Za-z_]\w*))?(?:,\s*([A-Za-z_]\w*))?\s*:?=(?:\s|⟦)`),
 	regexp.MustCompile(`(?m)^\s*var ([A-Za-z_]\w*) `),
 }
 
